@@ -466,11 +466,18 @@ class ScaledInteger(HasUnit, DataType):
         return int(round(value / self.scale))
 
     def import_value(self, value):
-        """returns a python object from serialisation"""
+        """returns a python object from serialisation
+
+        accepts integers, booleans and whole-number floats, but not strings
+        """
         try:
-            return self.scale * int(value)
+            fvalue = value + 0.0  # do not accept strings here
+            intval = int(value)
         except Exception:
             raise WrongTypeError(f'can not import {shortrepr(value)} to scaled') from None
+        if round(fvalue) != fvalue:
+            raise WrongTypeError(f'{shortrepr(value)} should be an int')
+        return self.scale * intval
 
     def format_value(self, value, unit=True):
         if unit is True:
